@@ -152,8 +152,13 @@ def exportFiles (mob tar : Db) (doExport : Bool) (mobile' : List Atom) : Except 
 def superpose (kernel : List V → List V → Except Err (Mat3 Rat)) (mob tar : Db) (a : Args) : Except Err Out := do
   let sel ← selection a
   let m ← matched mob.rows tar.rows sel
-  -- an empty selection: np.mean(·, 0) of an empty array is a scalar nan and the kernel's guard `any(...)` raises TypeError
-  if m.1.isEmpty then throw Err.typeError
+  -- an empty selection: `superpose_selection` still runs and calls the kernel on the (empty) arrays, and the kernel raises — the
+  -- dispatch its ValueError for an unknown method, otherwise the guard `any(np.abs(np.mean(·, 0)) > eps)` a TypeError (np.mean of an
+  -- empty array is a scalar nan).  The model raises what the kernel raises; a kernel that accepts the empty selection is outside it.
+  if m.1.isEmpty then
+    match superposeSelection kernel (mob.rows.map pos) m.1 m.2 with
+    | .error e => throw e
+    | .ok _ => throw (Err.unmodelled "the rotation kernel accepted an empty selection")
   -- xyz_mobile = np.array(sql_mobile.get("x,y,z")); xyz_mobile = superpose_selection(xyz_mobile, selection_mobile, selection_target, method)
   let xyzMobile ← superposeSelection kernel (mob.rows.map pos) m.1 m.2
   -- sql_mobile.update('x,y,z', xyz_mobile): row i gets the i-th triple
